@@ -210,3 +210,103 @@ Proof.
   cbv zeta. split; [reflexivity|]. split; [apply ints_ok_dec; reflexivity|].
   vm_compute. repeat split; reflexivity.
 Qed.
+
+(* ---------------------------------------------------------------------------------------------
+   THE SHAPING MODEL IS THE C TEXT.  find_achar, can_join, uc_cshape and uc_cput of uc.c are translated by
+   tools/c2clite.py on every run (GenCFuncs.v, terms of the deep embedding CLite.v; the struct array achars[]
+   becomes the global block gb_achars, five cells c s i m f per row).  For ALL ints the translated functions
+   return what ShapeDefs.v (the model C18_shape speaks about) says; the memory is not written; no load leaves
+   its block, no signed operation overflows, no fuel runs out.  Proofs: coq/TrShape.v.  (uc_shape itself --
+   the neighbour search that feeds uc_cshape and uc_cput -- stays tied by correspondence.) *)
+From NV Require Import TrShape.
+
+(* the block the translator read from the initializer of achars[] is the table translate.py generated *)
+Theorem C18_tr_achars_table : gb_achars = flat_map (fun r => [VInt (a_c r); VInt (a_s r); VInt (a_i r); VInt (a_m r); VInt (a_f r)]) achars.
+Proof. exact gb_achars_eq. Qed.
+Print Assumptions C18_tr_achars_table.
+
+(* find_achar(c), every int c (the comparisons `achars[m].c == c`, `c < achars[m].c` are unsigned in C: for a
+   negative c the bisection takes another path than the model's and still ends at NULL): a pointer to cell
+   5 * i of the table when row i has the letter c, NULL when no row has it; row i is the model's find_achar c,
+   which is the linear lookup *)
+Theorem C18_tr_find_achar : forall m c d fuel, globals_at m -> int_ok c -> (length achars < fuel)%nat ->
+  callf cprog fuel (S d) F_find_achar [VInt c] m
+  = Ok (match row_index c with Some i => VPtr G_achars (5 * Z.of_nat i) | None => VInt 0%Z end, m) /\
+  option_map (fun i => nth i achars arow0) (row_index c) = find_achar c /\
+  find_achar c = lookup_achar c /\
+  (forall i, row_index c = Some i -> (i < length achars)%nat /\ a_c (nth i achars arow0) = c).
+Proof. exact tr_find_achar_spec. Qed.
+Print Assumptions C18_tr_find_achar.
+
+Theorem C18_tr_can_join : forall m c1 c2 d fuel, globals_at m -> int_ok c1 -> int_ok c2 -> (length achars < fuel)%nat ->
+  callf cprog fuel (S (S d)) F_can_join [VInt c1; VInt c2] m = Ok (VInt (b2z (can_join c1 c2)), m).
+Proof. exact tr_can_join. Qed.
+Print Assumptions C18_tr_can_join.
+
+Theorem C18_tr_uc_cshape : forall m cur prev next d fuel,
+  globals_at m -> int_ok cur -> int_ok prev -> int_ok next -> (length achars < fuel)%nat ->
+  callf cprog fuel (S (S (S d))) F_uc_cshape [VInt cur; VInt prev; VInt next] m
+  = Ok (VInt (uc_cshape cur prev next), m).
+Proof. exact tr_uc_cshape. Qed.
+Print Assumptions C18_tr_uc_cshape.
+
+(* uc_cput(d, c), every c with 0 <= c <= INT_MAX (all the C text needs: the shifts and the conversions to char
+   are defined for every int; the model is on N) and every destination with room for the encoding and the
+   terminator: cells d[0..n-1] receive the bytes of UcDefs.uc_cput c as (signed) chars -- wrap I8 of the byte,
+   i.e. the byte modulo 256, see C18_tr_uc_cput_cells --, d[n] receives 0, no other cell of any block changes *)
+Theorem C18_tr_uc_cput : forall m b blk o c d fuel, nth_error m b = Some blk -> (c <= 2147483647)%N ->
+  (o + length (uc_cput c) + 1 <= length blk)%nat -> (4 <= fuel)%nat ->
+  callf cprog fuel (S d) F_uc_cput [VPtr b (Z.of_nat o); VInt (Z.of_N c)] m
+  = Ok (VUndef, CLiteProps.upd m b (firstn o blk ++ (map (fun x => VInt (wrap I8 (Z.of_N x))) (uc_cput c) ++ [VInt 0%Z])
+                                     ++ skipn (o + length (map (fun x => VInt (wrap I8 (Z.of_N x))) (uc_cput c) ++ [VInt 0%Z])) blk)).
+Proof. exact tr_uc_cput. Qed.
+Print Assumptions C18_tr_uc_cput.
+
+Theorem C18_tr_uc_cput_cells : forall m b blk o c d fuel, nth_error m b = Some blk -> (c <= 2147483647)%N ->
+  (o + length (uc_cput c) + 1 <= length blk)%nat -> (4 <= fuel)%nat ->
+  exists m', callf cprog fuel (S d) F_uc_cput [VPtr b (Z.of_nat o); VInt (Z.of_N c)] m = Ok (VUndef, m') /\
+    (forall k, (k < length (uc_cput c))%nat ->
+       exists z, load m' b (Z.of_nat (o + k)) = Ok (VInt z) /\ (z mod 256 = Z.of_N (nthb (uc_cput c) k) mod 256)%Z) /\
+    load m' b (Z.of_nat (o + length (uc_cput c))) = Ok (VInt 0%Z) /\
+    (forall k, (k < o \/ o + length (uc_cput c) < k)%nat -> load m' b (Z.of_nat k) = load m b (Z.of_nat k)) /\
+    (forall b' p, b' <> b -> load m' b' p = load m b' p).
+Proof. exact tr_uc_cput_cells. Qed.
+Print Assumptions C18_tr_uc_cput_cells.
+
+(* ... and the bytes of the model are bytes (so `mod 256` above is the byte itself) for every c < 2^26, in
+   particular for every code point up to 0x10ffff *)
+Theorem C18_uc_cput_bytes : forall c, (c < 67108864)%N -> Forall (fun x => (x < 256)%N) (uc_cput c).
+Proof. exact uc_cput_lt256. Qed.
+Print Assumptions C18_uc_cput_bytes.
+
+(* the translated functions RUN, on the program's own globals: beh (U+0628) between lam and meem becomes its
+   medial form U+FE92, after lam at the end of a word its final form U+FE90, before meem its initial form
+   U+FE91, alone it stays; `a` is not a letter of the table; tatweel (U+0640) has no final form: after beh at
+   the end of a word it stays itself (the `c ? c : cur` fallback), and beh does join a following tatweel (through
+   `a2->f || a2->m`); find_achar returns &achars[7] for beh, NULL for `a` and for -1; uc_cput writes EF BA 92 00
+   (as signed chars) at d = buf + 1 and nothing else, and is a checked error when the buffer is too short *)
+Example C18_tr_shape_nonvacuous :
+  let m := cglobals ++ [repeat VUndef 8] in
+  let buf := length cglobals in
+  globals_at m /\
+  callf cprog 100 3 F_uc_cshape [VInt 1576; VInt 1604; VInt 1605]%Z m = Ok (VInt 65170%Z, m) /\
+  uc_cshape 1576 1604 1605 = 65170%Z /\
+  callf cprog 100 3 F_uc_cshape [VInt 1576; VInt 1604; VInt 0]%Z m = Ok (VInt 65168%Z, m) /\
+  callf cprog 100 3 F_uc_cshape [VInt 1576; VInt 0; VInt 1605]%Z m = Ok (VInt 65169%Z, m) /\
+  callf cprog 100 3 F_uc_cshape [VInt 1576; VInt 0; VInt 0]%Z m = Ok (VInt 1576%Z, m) /\
+  callf cprog 100 3 F_uc_cshape [VInt 97; VInt 1604; VInt 1605]%Z m = Ok (VInt 97%Z, m) /\
+  callf cprog 100 3 F_uc_cshape [VInt 1600; VInt 1576; VInt 0]%Z m = Ok (VInt 1600%Z, m) /\
+  callf cprog 100 3 F_uc_cshape [VInt 1576; VInt 0; VInt 1600]%Z m = Ok (VInt 65169%Z, m) /\
+  callf cprog 100 2 F_can_join [VInt 1576; VInt 1600]%Z m = Ok (VInt 1%Z, m) /\
+  callf cprog 100 2 F_can_join [VInt 1575; VInt 1576]%Z m = Ok (VInt 0%Z, m) /\
+  callf cprog 100 1 F_find_achar [VInt 1576%Z] m = Ok (VPtr G_achars 35%Z, m) /\
+  callf cprog 100 1 F_find_achar [VInt 97%Z] m = Ok (VInt 0%Z, m) /\
+  callf cprog 100 1 F_find_achar [VInt (-1)%Z] m = Ok (VInt 0%Z, m) /\
+  callf cprog 4 1 F_uc_cput [VPtr buf 1%Z; VInt 65170%Z] m
+    = Ok (VUndef, cglobals ++ [[VUndef; VInt (-17); VInt (-70); VInt (-110); VInt 0; VUndef; VUndef; VUndef]%Z]) /\
+  uc_cput 65170 = [239; 186; 146]%N /\
+  callf cprog 4 1 F_uc_cput [VPtr buf 5%Z; VInt 65170%Z] m = Err EOob.
+Proof.
+  cbv zeta. split; [intros g blk H; rewrite nth_error_app1; [exact H|apply nth_error_Some; rewrite H; discriminate]|].
+  repeat (split; [vm_compute; reflexivity|]). vm_compute; reflexivity.
+Qed.
